@@ -14,6 +14,9 @@ type SelState struct {
 	State  *ssa.SelectState
 	Chosen []Edge    // CFG edges taken when this case is chosen
 	Recv   ssa.Value // Extract of the received value (recv cases), or nil
+	// After is set when the case's body is empty and shares its continuation with the default/next case: go/ssa
+	// then emits the `index == k` comparison without a branch. Control simply continues after that instruction.
+	After ssa.Instruction
 }
 
 // SelectStates analyses a select instruction.
@@ -46,8 +49,12 @@ func SelectStates(sel *ssa.Select) []SelState {
 			if !isC || int(k) < 0 || int(k) >= len(out) {
 				continue
 			}
-			for _, t := range BoolTests(b) {
+			tests := BoolTests(b)
+			for _, t := range tests {
 				out[k].Chosen = append(out[k].Chosen, t.True)
+			}
+			if len(tests) == 0 {
+				out[k].After = b
 			}
 		}
 	}
